@@ -1527,6 +1527,7 @@ SYNC_MODELS = {
     '_ZNSt6thread15_M_start_threadESt10unique_ptrINS_6_StateESt14default_deleteIS1_EEPFvvE': m_start_thread,
     '_ZNSt6thread4joinEv': m_join, '_ZNSt6thread6_StateD2Ev': lambda e, st, a: None,
 }
+SYNC_MODELS['pthread_self'] = lambda e, st, a: st.cur + 1
 BUILTIN_MODELS.update(SYNC_MODELS)
 BUILTIN_MODELS.update({'LogPrintfFunc': lambda e, st, a: None, '_ZNSt8ios_base4InitC1Ev': lambda e, st, a: None, '_ZNSt8ios_base4InitD1Ev': lambda e, st, a: None})
 
